@@ -376,7 +376,8 @@ func C19mesh(p *load.Program, run *report.Run) {
 		return false, "dial loop: " + m.why
 	}
 	counts := func(self, id int64) (bool, string) {
-		m := &miniEval{pkg: pkg, env: miniEnv{"self.ID": self, "nw.Self.ID": self, idVar: id}}
+		// the leader is party 0 (the dial cells above take it as such)
+		m := &miniEval{pkg: pkg, env: miniEnv{"self.ID": self, "nw.Self.ID": self, "leader.ID": int64(0), idVar: id}}
 		switch m.run(countBody.List, isCount) {
 		case reached:
 			return true, ""
@@ -514,8 +515,26 @@ func C19mesh(p *load.Program, run *report.Run) {
 					}
 					if o == reached {
 						if i == 0 || i == peer {
-							run.Violate("leader-roster", fmt.Sprintf("p2p.Network.connectLeader/roster/peer=%d,entry=%d", peer, i), p.Rel(inner.Pos()), "the roster sent to a peer contains the leader or the peer itself", nil)
-							okAll = false
+							// an entry for the leader or for the addressee is harmless if the addressee passes it over
+							// before it does anything with it (counts it, registers it)
+							passedOver := false
+							if idVar != "" {
+								rm := &miniEval{pkg: pkg, env: miniEnv{"self.ID": peer, "nw.Self.ID": peer, "leader.ID": int64(0), idVar: i}}
+								first := func(s ast.Stmt) bool {
+									switch s.(type) {
+									case *ast.IfStmt, *ast.BlockStmt:
+										return false
+									}
+									return isCount(s) || containsCall(s, "addPeer")
+								}
+								if out := rm.run(countBody.List, first); out == skipped || out == fallThrough {
+									passedOver = true
+								}
+							}
+							if !passedOver {
+								run.Violate("leader-roster", fmt.Sprintf("p2p.Network.connectLeader/roster/peer=%d,entry=%d", peer, i), p.Rel(inner.Pos()), "the roster sent to a peer contains the leader or the peer itself, and the peer does not pass that entry over", nil)
+								okAll = false
+							}
 						}
 						sent++
 					}
@@ -529,7 +548,7 @@ func C19mesh(p *load.Program, run *report.Run) {
 			}
 		}
 		if okAll {
-			run.OK("leader-roster", "p2p.Network.connectLeader/roster", p.Rel(inner.Pos()), "announced length = entries sent; leader and addressee excluded")
+			run.OK("leader-roster", "p2p.Network.connectLeader/roster", p.Rel(inner.Pos()), "announced length = entries sent; leader and addressee excluded, or passed over by the addressee")
 		}
 		run.Floor("roster-cells", 6)
 	}
